@@ -326,12 +326,12 @@ PROPS["C10"] = dict(
             dict(mod="v2", pkg="join/unite", overlay="harness/v2/unite", harness="^VerifC10_(interval|wiring|step)$", params=_INACC),
             dict(mod="v1", pkg="join", overlay="harness/v1/join", harness="^VerifC10_(interval|wiring|step)$", params=_INACC),
             # bounded runs with a periodic ticker, timed arrivals and a latency parameter lambda (c = 3)
-            dict(mod="v2", pkg="join", overlay="harness/v2/join", harness="^VerifC10_run$", timeout=60000,
-                 params=dict(quick=dict(M=[1], inacc=[100, 50], c=[3], ticks=[3]), thorough=dict(M=[1, 2], inacc=[100, 50], c=[3], ticks=[4]))),
-            dict(mod="v2", pkg="join/unite", overlay="harness/v2/unite", harness="^VerifC10_run$", timeout=60000,
-                 params=dict(quick=dict(M=[1], inacc=[100], c=[3], ticks=[3]), thorough=dict(M=[1, 2], inacc=[100, 50], c=[3], ticks=[3]))),
-            dict(mod="v1", pkg="join", overlay="harness/v1/join", harness="^VerifC10_run$", timeout=60000,
-                 params=dict(quick=dict(M=[1], inacc=[100], c=[3], ticks=[3]), thorough=dict(M=[1, 2], inacc=[100, 50], c=[3], ticks=[3])))])
+            dict(mod="v2", pkg="join", overlay="harness/v2/join", harness="^VerifC10_run$", timeout=dict(quick=60000, thorough=180000),
+                 params=dict(quick=dict(M=[1], inacc=[100, 50], c=[3], ticks=[3]), thorough=dict(M=[1, 2], inacc=[100, 50], c=[3], ticks=[3]))),
+            dict(mod="v2", pkg="join/unite", overlay="harness/v2/unite", harness="^VerifC10_run$", timeout=dict(quick=60000, thorough=180000),
+                 params=dict(quick=dict(M=[1], inacc=[100], c=[3], ticks=[3]), thorough=dict(M=[1, 2], inacc=[100], c=[3], ticks=[3]))),
+            dict(mod="v1", pkg="join", overlay="harness/v1/join", harness="^VerifC10_run$", timeout=dict(quick=60000, thorough=180000),
+                 params=dict(quick=dict(M=[1], inacc=[100], c=[3], ticks=[3]), thorough=dict(M=[1, 2], inacc=[100], c=[3], ticks=[3])))])
 
 def _c20(mod, pkg, overlay, harness, q, t, scen=None):
     g = dict(mod=mod, pkg=pkg, overlay=overlay, harness=harness, params=dict(quick=q, thorough=t), race_scenario_advisory=True)
